@@ -537,6 +537,18 @@ func (s *TermStore) Ite(c, a, b *Term) *Term {
 		if a.IsFalse() && b.IsTrue() {
 			return s.Not(c)
 		}
+		if b.IsFalse() {
+			return s.And(c, a)
+		}
+		if a.IsTrue() {
+			return s.Or(c, b)
+		}
+		if a.IsFalse() {
+			return s.And(s.Not(c), b)
+		}
+		if b.IsTrue() {
+			return s.Or(s.Not(c), a)
+		}
 	}
 	return s.mk(&Term{Op: OIte, Sort: a.Sort, W: a.W, A: []*Term{c, a, b}})
 }
